@@ -156,6 +156,14 @@ def run(case):
                         ok = ok and (a | b) == hull and (b | a) == hull and a.duration > 0 and len(Timeline([a, b])) == 2
                         ok = ok and Timeline([a, b]).extent() == hull
                     ok = ok and (a | b) == Segment((a | b).start, (a | b).end)
+            # intersects() and the emptiness of & use the same threshold: overlaps of 0 and 2 ticks at every precision,
+            # of exactly one tick at precision 0 (integer arithmetic, no float noise)
+            for ov, want in ((0, False), (2, True), (3, True)) + (((1, False),) if n == 0 else ()):
+                a = Segment(kk * P, (kk + 5) * P)
+                b = Segment((kk + 5 - ov) * P, (kk + 11) * P)
+                got = (bool(a.intersects(b)), bool(b.intersects(a)), bool(a & b), bool(b & a),
+                       len(list(Timeline([a]).co_iter(Timeline([b])))) == 1)
+                assert got == (want,) * 5, "overlap of %d tick(s) at precision %d: intersects / & / co_iter say %r" % (ov, n, got)
             return {"ok": bool(ok)}
         if k == "suspended":
             from pyannote.core import Annotation, SlidingWindow
